@@ -19,7 +19,9 @@ if ! git -C $WT apply $P 2>/dev/null; then
 fi
 ( cd $WT && go build ./... ) || { echo "RESULT does not build"; git -C /repo worktree remove --force $WT; exit 3; }
 suite=$(cd $WT && go test -vet=off -count=1 ./... 2>&1 | grep -v "no test files" | grep -vc "^ok")
-for f in $D/*_test.go; do cp $f $WT/$pkgdir/; done
+for f in $D/*_test.go; do [ -f $f ] && cp $f $WT/$pkgdir/; done
+# (demonstrations that span several packages are kept as a tree)
+for t in pkg internal; do [ -d $D/$t ] && cp -r $D/$t $WT/; done
 with=$(cd $WT && timeout 400 bash -c "$cmd" >${WT}-with.log 2>&1; echo $?)
 git -C $WT apply -R $P
 without=$(cd $WT && timeout 400 bash -c "$cmd" >${WT}-without.log 2>&1; echo $?)
